@@ -293,7 +293,21 @@ pub fn build_scenario(rng: &mut Rng, mapping: Vec<u8>, max_threads: u64, jobs_pe
                     _ => Target::Cache,
                 },
             };
-            b.push(Job { target, q, set, via_clone: rng.chance(1, 5) });
+            // a text trace is often followed by a sibling that differs only in trailing whitespace / blank lines
+            let sibling = match &q {
+                Query::TraceText(t) if rng.chance(1, 2) => Some(Query::TraceText(match rng.below(4) {
+                    0 => format!("{}\n\n", t),
+                    1 => format!("{}  ", t.trim_end()),
+                    2 => t.trim_end().to_string(),
+                    _ => format!("{}\n", t.trim_end()),
+                })),
+                _ => None,
+            };
+            let via_clone = rng.chance(1, 5);
+            b.push(Job { target, q, set, via_clone });
+            if let Some(sq) = sibling {
+                b.push(Job { target, q: sq, set, via_clone });
+            }
         }
         batches.push(b);
     }
@@ -771,6 +785,9 @@ pub fn main(env: &Env) -> i32 {
 
 pub fn miri_main(args: &[String]) -> i32 {
     let wseed: u64 = arg_value(args, "--wseed").and_then(|s| s.parse().ok()).unwrap_or(1);
+    if arg_value(args, "--mode").as_deref() == Some("longcall") {
+        return miri_longcall(wseed, arg_value(args, "--threads").and_then(|s| s.parse().ok()).unwrap_or(3));
+    }
     if arg_value(args, "--mode").as_deref() == Some("crowd") {
         return miri_crowd(wseed, arg_value(args, "--threads").and_then(|s| s.parse().ok()).unwrap_or(12));
     }
@@ -1054,5 +1071,113 @@ pub fn miri_crowd(wseed: u64, n_threads: usize) -> i32 {
         }
     }
     println!("MIRI-C20 ok mode=crowd wseed={} threads={} cause_chain_depth={} jobs_per_thread={} answers={:016x}", wseed, n_threads, depth, jobs.len(), d.finish());
+    0
+}
+
+/// Miri "long call" mode: thread 0 sits inside one very long call (a signature with hundreds of
+/// parameters, a trace with hundreds of lines) while the other threads push many *distinct* short calls
+/// of the same API through the same handle; afterwards every key is asked again, most recent first.
+/// Bounded memo structures (rings, LRUs) that are claimed before and filled after the work wrap around
+/// during the long call; Miri's round-robin preemption gives the long call its many time slices.
+pub fn miri_longcall(wseed: u64, n_threads: usize) -> i32 {
+    let mapping: Vec<u8> = b"com.example.Foo -> a.a:\n    1:3:void run():10:12 -> a\ncom.example.Bar -> a.b:\n    5:9:int calc(java.lang.String):30:34 -> a\n".to_vec();
+    let inputs = Inputs::new(&[mapping]).expect("inputs");
+    let inputs = &inputs;
+    let shorts_per_thread = 40 + (wseed % 3) as usize * 2;
+    let letters = ["I", "J", "Z", "B", "La/a;", "[I", "La/b;", "S"];
+    let short_sig = |i: usize| -> String {
+        let mut n = i + 8;
+        let mut p = String::from("(");
+        while n > 0 {
+            p.push_str(letters[n % 8]);
+            n /= 8;
+        }
+        // every third one is invalid (no return type): alone it answers None
+        if i % 3 == 0 {
+            p.push(')');
+        } else {
+            p.push_str(")V");
+        }
+        p
+    };
+    let long_sig: String = format!("({})La/a;", "La/a;I[JLa/b;".repeat(90 + (wseed % 4) as usize * 10));
+    let long_trace: String = {
+        let mut t = String::from("a.a: top\n");
+        for i in 0..(60 + (wseed % 4) * 10) {
+            t.push_str(&format!("    at a.{}.a(SourceFile:{})\n", if i % 2 == 0 { "a" } else { "b" }, 1 + i % 9));
+        }
+        t
+    };
+    let short_trace = |i: usize| -> String { format!("a.{}: e{}\n    at a.a.a(SourceFile:{})\n    ... {} more", if i % 2 == 0 { "a" } else { "b" }, i, 1 + i % 4, i) };
+    // per thread: the ordered list of jobs of the concurrent phase
+    let mut batches: Vec<Vec<Job>> = Vec::new();
+    for t in 0..n_threads {
+        let mut b = Vec::new();
+        if t == 0 {
+            b.push(Job { via_clone: false, set: 0, target: if wseed % 2 == 0 { Target::Mapper } else { Target::Cache }, q: Query::Signature(long_sig.clone()) });
+            if wseed % 4 >= 2 {
+                b.push(Job { via_clone: false, set: 0, target: Target::Mapper, q: Query::TraceText(long_trace.clone()) });
+            }
+        } else {
+            for i in 0..shorts_per_thread {
+                let k = t * 1000 + i;
+                b.push(Job { via_clone: false, set: 0, target: if i % 4 == 3 { Target::Cache } else { Target::Mapper }, q: Query::Signature(short_sig(k)) });
+                if wseed % 4 >= 2 && i % 8 == 0 {
+                    b.push(Job { via_clone: false, set: 0, target: Target::Mapper, q: Query::TraceText(short_trace(k)) });
+                }
+            }
+        }
+        batches.push(b);
+    }
+    let batches = &batches;
+    let Some(shared) = Shared::build(inputs) else { return 2 };
+    let shared = ForceShare(shared);
+    let barrier = std::sync::Barrier::new(n_threads);
+    let barrier = &barrier;
+    // phase 1 concurrently, then (after a barrier) phase 2: thread t re-asks the jobs of thread (t+1) % n, most recent first
+    let results: Vec<(Vec<String>, Vec<String>)> = std::thread::scope(|s| {
+        let hs: Vec<_> = (0..n_threads)
+            .map(|me| {
+                let shared = &shared;
+                s.spawn(move || {
+                    let sh = shared.get();
+                    barrier.wait();
+                    let first: Vec<String> = batches[me].iter().map(|j| answer_job(sh, j, &mut || false)).collect();
+                    barrier.wait();
+                    let other = &batches[(me + 1) % n_threads];
+                    let again: Vec<String> = other.iter().rev().map(|j| answer_job(sh, j, &mut || false)).collect();
+                    (first, again)
+                })
+            })
+            .collect();
+        hs.into_iter().map(|h| h.join().expect("worker thread panicked")).collect()
+    });
+    let own = Shared::build(inputs).expect("fresh handles");
+    let mut d = Digest::default();
+    for t in 0..n_threads {
+        for (i, j) in batches[t].iter().enumerate() {
+            let e = answer_job(&own, j, &mut || false);
+            d.str(&e);
+            if results[t].0[i] != e {
+                println!("MIRI-C20 VIOLATION longcall thread={} first ask {} alone={:?} concurrent={:?}", t, j.describe(), e, results[t].0[i]);
+                return 1;
+            }
+            let asker = (t + n_threads - 1) % n_threads;
+            let idx = batches[t].len() - 1 - i;
+            if results[asker].1[idx] != e {
+                println!("MIRI-C20 VIOLATION longcall thread={} asked again {} alone={:?} after the concurrent phase={:?}", asker, j.describe(), e, results[asker].1[idx]);
+                return 1;
+            }
+        }
+    }
+    println!(
+        "MIRI-C20 ok mode=longcall wseed={} threads={} short_calls_per_thread={} long_signature_bytes={} long_trace_lines={} answers={:016x}",
+        wseed,
+        n_threads,
+        batches.get(1).map(|b| b.len()).unwrap_or(0),
+        long_sig.len(),
+        long_trace.lines().count(),
+        d.finish()
+    );
     0
 }
